@@ -16,8 +16,8 @@ PROPS = {
     "C09": dict(level="model_checking", systems=["exp"]),
     "C10": dict(level="model_checking", systems=["exp"]),
     "C11": dict(level="fault_enumeration", systems=["disk"]),
-    "C12": dict(level="model_checking", systems=["pair"]),
-    "C13": dict(level="model_checking", systems=["pair"]),
+    "C12": dict(level="model_checking", systems=["pair", "disk"]),
+    "C13": dict(level="model_checking", systems=["pair", "disk"]),
     "C14": dict(level="model_checking", systems=["bloom", "cbf", "cms", "exp", "cuckoo", "qf", "disk", "pair"]),
     "C15": dict(level="model_checking", systems=["cuckoo"]),
     "C16": dict(level="model_checking", systems=["sat"]),
